@@ -32,14 +32,14 @@ Proof. exact lone_request_succeeds. Qed.
 (* token endpoint: among any number of concurrent authorization_code requests for one code, with
    arbitrary client / redirect / verifier fields each, at most one gets a token response *)
 Theorem C23_tokens_at_most_once :
-  forall (sha256 : list N -> list N) p reqs sched, tokens_issued sha256 false p reqs sched <= 1.
+  forall (sha256 : list N -> list N) present p reqs sched,
+    tokens_issued sha256 false present p reqs sched <= 1.
 Proof. exact tokens_at_most_once. Qed.
 
 (* same for refresh_token requests *)
 Theorem C23_refresh_at_most_once :
-  forall owner (reqs : list request) sched,
-    length (filter (fun x => is200 (respond_refresh (success (trace (exec true sched)) (fst x)) owner (snd x)))
-                   (combine (seq 0 (length reqs)) reqs)) <= 1.
+  forall present owner (reqs : list request) sched,
+    count200 (responses_refresh false present owner reqs sched) <= 1.
 Proof. exact refresh_at_most_once. Qed.
 
 (* PKCE: a token response for a code issued with a challenge needs the matching verifier
@@ -60,8 +60,8 @@ Example C23_nonvacuous_interleaving :
 Proof. split; [exact bad_sched_interleaving|]. vm_compute. auto. Qed.
 
 Example C23_nonvacuous_tokens :
-  tokens_issued (fun _ => []) false demo_p [demo_r; demo_r] bad_sched = 1 /\
-  tokens_issued (fun _ => []) true demo_p [demo_r; demo_r] bad_sched = 2.
+  tokens_issued (fun _ => []) false true demo_p [demo_r; demo_r] bad_sched = 1 /\
+  tokens_issued (fun _ => []) true true demo_p [demo_r; demo_r] bad_sched = 2.
 Proof. vm_compute. auto. Qed.
 
 Example C23_nonvacuous_pkce :
